@@ -2,8 +2,7 @@
    The modelled operations compute the std list functions and panic exactly on the out-of-range
    arguments.  The capacity clauses (capacity >= len and >= promise, no reallocation within the
    promise, fixed vectors never reallocate) are proved for BumpVec / FixedBumpVec / MutBumpVec(Rev) over the
-   capacity model VecCap.v.  PARTIAL: the unlimited ZST capacity and
-   the operations not modelled (map, into_flattened, into_* conversions) are checked on the
+   capacity model VecCap.v.  PARTIAL: the operations not modelled (map, into_flattened, into_* conversions) are checked on the
    implementation against std::vec::Vec in lock-step only. *)
 From Coq Require Import List Arith ZArith.
 From BS Require Import Word VecCap VecCapProofs Colls CollsProofs.
@@ -139,6 +138,16 @@ Theorem C08_shrink_to_bounds :
   vlen s' = vlen s /\ vlen s <= vcap s' <= vcap s /\ Z.min (vcap s) m <= vcap s'.
 Proof. exact shrink_to_bounds. Qed.
 
+(* zero-sized element types: capacity usize::MAX ("unlimited"), never an allocator call, the length
+   never passes usize::MAX, an operation that would overflow it is an error that changes nothing *)
+Theorem C08_zst_vector_never_overflows :
+  forall al s o grant shrunk got,
+  vcap s = W - 1 -> 0 <= vlen s <= vcap s -> vop_ok o ->
+  let '(s', out) := vstep true 0 al s o grant shrunk got in
+  vcap s' = W - 1 /\ 0 <= vlen s' <= W - 1 /\ (vo_err out <> None -> s' = s) /\ vo_asked out = false /\
+  (forall n, (o = VExtend n \/ (o = VPush /\ n = 1)) -> (vo_err out = None <-> vlen s + n <= W - 1)).
+Proof. exact zst_vector_never_overflows. Qed.
+
 Print Assumptions C08_truncate_spec.
 Print Assumptions C08_remove_spec.
 Print Assumptions C08_remove_panics_iff.
@@ -161,3 +170,4 @@ Print Assumptions C08_reserve_exact_is_exact.
 Print Assumptions C08_fixed_never_reallocates.
 Print Assumptions C08_fixed_push_fails_iff_full.
 Print Assumptions C08_shrink_to_bounds.
+Print Assumptions C08_zst_vector_never_overflows.
